@@ -102,7 +102,7 @@ fn fl_inp(name: &str, msgs: Vec<FlightData>) -> Inp {
         bytes: vec![],
         n,
         marks: (0..=n).collect(),
-        bodies: vec![],
+        bodies: vec![], must: vec![], batch_sizes: None, lean: false,
         cfg: Cfg::Flight(FlightCfg { msgs }),
         uses_bs: false,
         allow_empty: true,
